@@ -93,6 +93,7 @@ std::unique_ptr<Node> node;
 std::mutex node_mutex;
 std::unique_ptr<daemon::ControlServer::Impl> impl;
 std::optional<std::string> cfg_token;
+std::size_t cfg_stream_cap = 1u << 20;
 int stops = 0;
 std::uint64_t nonce_counter = 1;
 std::map<std::string, std::array<std::uint8_t, 32>> peer_keys;
@@ -155,7 +156,7 @@ void ensure() {
     c.store_pow_difficulty = 0;
     c.nat_stun_enabled = false;
     c.relay_enabled = false;
-    c.control_stream_max_bytes = 1u << 20;
+    c.control_stream_max_bytes = cfg_stream_cap;
     c.control_token = cfg_token;
     c.handshake_cooldown = std::chrono::seconds(0);
     node = std::make_unique<Node>(self_id(), c);
@@ -487,13 +488,40 @@ std::string transport_probe(std::uint16_t port, std::uint8_t tag, int deadline_m
     return out;
 }
 
-// One client that connects and then says nothing: are the others still served?
-//   ctl-second : a PING sent while a silent client holds the control accept thread (deadline 1.5 s)
-//   ctl-after  : a PING after the silent client went away
+// connect with a tiny receive buffer (so that the peer's send really blocks) and send `request`; never read
+int never_reading_client(std::uint16_t port, const std::string& request) {
+    int fd = ::socket(AF_INET, SOCK_STREAM, 0);
+    int small = 2048;
+    ::setsockopt(fd, SOL_SOCKET, SO_RCVBUF, &small, sizeof(small));
+    sockaddr_in a{};
+    a.sin_family = AF_INET;
+    a.sin_port = htons(port);
+    a.sin_addr.s_addr = htonl(INADDR_LOOPBACK);
+    if (::connect(fd, reinterpret_cast<sockaddr*>(&a), sizeof(a)) != 0) { ::close(fd); return -1; }
+    write_all(fd, reinterpret_cast<const std::uint8_t*>(request.data()), request.size());
+    return fd;
+}
+
+template <class I> bool shorten_control_timeout(I& server, std::chrono::milliseconds t) {
+    if constexpr (requires { server.client_io_timeout_ = t; }) {
+        server.client_io_timeout_ = t;      // SO_RCVTIMEO / SO_SNDTIMEO run on real time: keep the probe short
+        return true;
+    } else {
+        return false;
+    }
+}
+
+// One client that connects and then says nothing (or never reads its answer): are the others still served?
+//   ctl-second : a PING sent while a silent client holds the control accept thread (deadline 1.5 s; the
+//                harness shortens the server's client I/O timeout to 300 ms when the server has one)
+//   ctl-wstall : a PING sent while a client that asked for a 12 MiB streamed FETCH never reads it
+//   ctl-after  : a PING after the stalling clients went away
 //   tr-second  : a well-formed transport handshake while a silent client holds the transport accept thread
-//                (deadline 4 s: the inbound handshake is meant to be bounded by kHandshakeTimeout = 2 s)
+//                (deadline 4 s: the inbound handshake is bounded by kHandshakeTimeout = 2 s)
 std::string stall_probe() {
     std::string out;
+    const bool bounded = shorten_control_timeout(*impl, std::chrono::milliseconds(300));
+    out += std::string(" ctl-timeout=") + (bounded ? "300" : "none");
     node->start_transport(0);
     impl->start("127.0.0.1", 0);
     sockaddr_in bound{};
@@ -506,6 +534,17 @@ std::string stall_probe() {
     std::this_thread::sleep_for(std::chrono::milliseconds(150));
     out += " ctl-second=" + control_probe(cport, "COMMAND:PING\n\n", 1500);
     if (silent_ctl >= 0) ::close(silent_ctl);
+
+    ChunkId big{}; big[0] = 0xCB;
+    protocol::Manifest big_manifest;
+    {
+        std::scoped_lock lock(node_mutex);
+        big_manifest = node->store_chunk(big, ChunkData(12u << 20, 0x42), std::chrono::seconds(3600));
+    }
+    const int deaf = never_reading_client(cport, "COMMAND:FETCH\nMANIFEST:" + protocol::encode_manifest(big_manifest) + "\nSTREAM:client\n\n");
+    std::this_thread::sleep_for(std::chrono::milliseconds(400));
+    out += " ctl-wstall=" + control_probe(cport, "COMMAND:PING\n\n", 2500);
+    if (deaf >= 0) ::close(deaf);
     out += " ctl-after=" + control_probe(cport, "COMMAND:PING\n\n", 3000);
 
     const int silent_tr = tcp_connect(tport);
@@ -542,7 +581,9 @@ bool link_nodes(Node& a, Node& b, std::uint16_t port_a) {
 std::string real_threads(const std::string& scenario) {
     drop_all();
     cfg_token.reset();
+    cfg_stream_cap = scenario == "stall" ? (32u << 20) : (1u << 20);
     ensure();
+    cfg_stream_cap = 1u << 20;
     ticker_run = true;
     std::thread ticker([] {
         while (ticker_run) { std::this_thread::sleep_for(std::chrono::milliseconds(5)); verif::vclock_advance(5'000'000); }
